@@ -287,9 +287,11 @@ def run(ctx):
     for r in rates:
         scen.append(long_run(len(scen), "rtsp", "avc", "aac", r, nfx, "single", (1 << 32) - half * 3600 - 1000, (1 << 32) - (nfx // 3) * 1024 - 77))
         scen.append(long_run(len(scen), "rtsp", "none", "aac", r, nfx, "single", 0, (1 << 32) - half * 1024 - 500))
-    for ac, r in (("pcma", 8000), ("opus", 48000)):
+    for ac, r in (("pcma", 8000), ("opus", 48000), ("pcmu", 8000)):
         scen.append(long_run(len(scen), "rtsp", "hevc", ac, r, nfx, "fu", 5000, (1 << 32) - half * (r // 50) - 3))
+        # audio-only announcements, G.711 with the static payload types (0, 8) and with a dynamic one
         scen.append(long_run(len(scen), "rtsp", "none", ac, r, nfx, "single", 0, (1 << 32) - half * (r // 50) - 3))
+        scen.append(long_run(len(scen), "rtsp", "none", ac, r, nfx // 2, "single", 0, 777))
     scen.append(long_run(len(scen), "rtsp", "avc", "none", 0, nfx, "fu", (1 << 32) - half * 3003 - 1, 0, vstep=3003))
     scen.append(long_run(len(scen), "rtsp", "hevc", "aac", 44100, nfx, "agg", (1 << 32) - half * 3600, 123456))
     for lm in (1 << 31, 1 << 32, 1 << 33):
